@@ -49,6 +49,15 @@ def oracle_decode(inp, out):
 
 def main():
     rec = json.load(open(sys.argv[1]))
+    if "KmerAlphabet._split" in rec.get("case", ""):
+        from replayers.C10 import split_search
+        from replayers.common import finish
+        try:
+            rep, detail = split_search(rec["case"])
+        except Exception:
+            rep, detail = None, "replayer error: " + traceback.format_exc()[-700:]
+        finish(rep, detail)
+        return
     try:
         import numpy as np
         rng = random.Random(0)
